@@ -56,6 +56,8 @@ func main() {
 		os.Exit(cmdVC(os.Args[2:]))
 	case "sweep":
 		os.Exit(cmdSweep(os.Args[2:]))
+	case "replay":
+		os.Exit(cmdReplay(os.Args[2:]))
 	case "uncovered":
 		// repository functions (with a body, outside internal/mock) that have no contract
 		P, err := LoadProgram()
